@@ -523,8 +523,43 @@ impl Check {
         }
         let mut st = SectionStats { name: name.to_string(), evaluations: 0, nontrivial_hashes: HashSet::new(), labels: BTreeMap::new(), samples: vec![], known_hits: BTreeMap::new() };
         let mut failure: Option<(Value, String)> = None;
-        for c in children {
-            let out = match c.wait_with_output() {
+        // shard watchdog: a shard that does not finish in time is killed and the run is inconclusive
+        let budget_s: u64 = std::env::var("VERIF_SHARD_TIMEOUT_S").ok().and_then(|s| s.parse().ok()).unwrap_or(match self.tier {
+            Tier::Quick => 900,
+            Tier::Thorough => 6 * 3600,
+        });
+        let deadline = Instant::now() + std::time::Duration::from_secs(budget_s);
+        let pids: Vec<u32> = children.iter().map(|c| c.id()).collect();
+        let (tx, rx) = std::sync::mpsc::channel();
+        for (i, c) in children.into_iter().enumerate() {
+            let tx = tx.clone();
+            std::thread::spawn(move || {
+                let _ = tx.send((i, c.wait_with_output()));
+            });
+        }
+        drop(tx);
+        let mut outputs = vec![];
+        let mut done = vec![false; pids.len()];
+        while outputs.len() < pids.len() {
+            let left = deadline.saturating_duration_since(Instant::now());
+            match rx.recv_timeout(left) {
+                Ok((i, o)) => {
+                    done[i] = true;
+                    outputs.push(o);
+                }
+                Err(_) => {
+                    for (i, pid) in pids.iter().enumerate() {
+                        if !done[i] {
+                            unsafe { libc::kill(*pid as i32, libc::SIGKILL) };
+                        }
+                    }
+                    self.inconclusive.push(format!("section {}: {} shard process(es) did not finish within {} s and were killed", name, done.iter().filter(|d| !**d).count(), budget_s));
+                    break;
+                }
+            }
+        }
+        for out in outputs {
+            let out = match out {
                 Ok(o) => o,
                 Err(e) => {
                     self.inconclusive.push(format!("shard wait: {}", e));
